@@ -12,7 +12,8 @@ from .c01 import loc
 
 EXPLANATION = (
     "The encoder layouts extracted from mqtt/pdu.py are compared with a table transcribed from the OASIS text (not derived "
-    "from this code base): S1 fixed-header byte = type<<4 | mandatory flags for all 14 packet types, PUBLISH flags at bit 0 "
+    "from this code base): S0 the framing lemma (C03's rules F1-F7) as the premise of the decode clause - what reaches a decoder is "
+    "exactly one packet as the broker sent it; S1 fixed-header byte = type<<4 | mandatory flags for all 14 packet types, PUBLISH flags at bit 0 "
     "(retain), 1-2 (qos), 3 (dup); S2 the remaining-length field measures exactly the buffers appended after it (none "
     "mutated after being measured), header-only packets carry a constant 0; S3 kind and order of the body fields per packet "
     "type, optional CONNECT sections and the flag bit each depends on, CONNECT flag bit positions, reserved bit 0 clear; "
@@ -54,9 +55,14 @@ def kind_of(it):
     return it["kind"]
 
 
-def check(ctx):
+def check(ctx, as_premise=False):
     a = ctx.a
     prog = a.prog
+    if not as_premise:
+        # "packets the broker sends decode to the field values the specification assigns them": the decoders see what the framer
+        # hands them, so a packet cut short, long or at the wrong place decodes to other values however exact the decoders are
+        from .c03 import framing_premise
+        framing_premise(ctx, "S0", "a broker packet framed wrongly decodes to field values the specification does not assign it")
     mod = prog.modules.get("mqtt.pdu")
     if mod is None:
         raise AnalysisError("anchor vanished: mqtt.pdu")
@@ -333,7 +339,7 @@ def wire_premise(ctx, rule, consequence):
     the C02 rules and reports their failures under `rule` of the calling property."""
     from ..report import Ctx, load_known
     sub = Ctx("C02", ctx.a, ctx.tier)
-    check(sub)
+    check(sub, as_premise=True)
     known = {(k["rule"], k["construct"]) for k in load_known() if k.get("property") == "C02" and k.get("status") == "known"}
     seen = set()
     for f in sub.findings:
